@@ -9,8 +9,11 @@
 (*   Getattr      errno, kind                                                *)
 (*   Getxattr     k, errno, val        Listxattr  errno, keys (array)        *)
 (*   Progress / Report                                                       *)
-(*   StatRead     errno, json, fname, digest, size, fetched, haserr,         *)
-(*                dirino, fileino                                            *)
+(*   Report       text                                                       *)
+(*   StatLookup   errno, fname, dirino, fileino, inohi                        *)
+(*   StatGetattr  errno, fileino                                              *)
+(*   StatRead     errno, json, digest, size, fetched, err   (read through the *)
+(*                statFile inode obtained by the last StatLookup)             *)
 (* Inode numbers: the specification names the inode of an entry by the raw  *)
 (* entry it comes from; the trace must exhibit a one-to-one correspondence  *)
 (* between those names and the recorded numbers (inomap).                   *)
@@ -32,14 +35,14 @@ NoBind == inomap' = inomap
 TraceInit ==
     /\ l = 1 /\ TLCSet(1, 0)
     /\ isRoot = TRUE /\ mode = "trusted" /\ src = {}
-    /\ cached = FALSE /\ ents = {} /\ mem = Empty /\ fetched = 0 /\ reported = FALSE
+    /\ cached = FALSE /\ ents = {} /\ mem = Empty /\ fetched = 0 /\ reported = 0 /\ sfheld = FALSE
     /\ last = [act |-> "Init"]
     /\ inomap = {} /\ dg = "" /\ sz = 0
 
 TraceReset ==
     /\ IsEvent("Reset")
     /\ isRoot' = Ev.root /\ mode' = Ev.mode /\ src' = SeqToSet(Ev.src)
-    /\ cached' = FALSE /\ ents' = {} /\ mem' = Empty /\ fetched' = 0 /\ reported' = FALSE
+    /\ cached' = FALSE /\ ents' = {} /\ mem' = Empty /\ fetched' = 0 /\ reported' = 0 /\ sfheld' = FALSE
     /\ last' = [act |-> "Init"]
     /\ inomap' = {} /\ dg' = Ev.digest /\ sz' = Ev.size
 
@@ -83,22 +86,36 @@ TraceStatScope == isRoot
 TraceProgress ==
     /\ IsEvent("Progress") /\ TraceStatScope
     /\ fetched' = fetched + 1 /\ last' = [act |-> "Progress"]
-    /\ UNCHANGED <<isRoot, mode, src, cached, ents, mem, reported>> /\ NoBind /\ UNCHANGED <<dg, sz>>
+    /\ UNCHANGED <<isRoot, mode, src, cached, ents, mem, reported, sfheld>> /\ NoBind /\ UNCHANGED <<dg, sz>>
 TraceReport ==
     /\ IsEvent("Report") /\ TraceStatScope
-    /\ reported' = TRUE /\ last' = [act |-> "Report"]
-    /\ UNCHANGED <<isRoot, mode, src, cached, ents, mem, fetched>> /\ NoBind /\ UNCHANGED <<dg, sz>>
-TraceStatRead ==
-    /\ IsEvent("StatRead") /\ TraceStatScope
-    /\ last' = [act |-> "StatRead", errno |-> Ev.errno, json |-> Ev.json, fname |-> Ev.fname, digest |-> Ev.digest,
-                size |-> Ev.size, fetched |-> Ev.fetched, haserr |-> Ev.haserr]
-    /\ StatOK(last', dg, sz, fetched) /\ Ev.haserr = reported
+    /\ reported' = reported + 1 /\ last' = [act |-> "Report", text |-> Ev.text]
+    /\ Ev.text = ErrText(reported + 1)
+    /\ UNCHANGED <<isRoot, mode, src, cached, ents, mem, fetched, sfheld>> /\ NoBind /\ UNCHANGED <<dg, sz>>
+TraceStatLookup ==
+    /\ IsEvent("StatLookup") /\ TraceStatScope
+    /\ sfheld' = TRUE
+    /\ last' = [act |-> "StatLookup", errno |-> Ev.errno, fname |-> Ev.fname]
+    /\ StatNameOK(last', dg)
     /\ Bind({<<"state", Ev.dirino>>, <<"statfile", Ev.fileino>>})
+    /\ UNCHANGED <<isRoot, mode, src, cached, ents, mem, fetched, reported>> /\ UNCHANGED <<dg, sz>>
+TraceStatGetattr ==
+    /\ IsEvent("StatGetattr") /\ TraceStatScope /\ sfheld
+    /\ Ev.errno = "OK"
+    /\ last' = [act |-> "StatGetattr", errno |-> Ev.errno]
+    /\ Bind({<<"statfile", Ev.fileino>>})
+    /\ UNCHANGED core /\ UNCHANGED <<dg, sz>>
+TraceStatRead ==
+    /\ IsEvent("StatRead") /\ TraceStatScope /\ sfheld
+    /\ last' = [act |-> "StatRead", errno |-> Ev.errno, json |-> Ev.json, digest |-> Ev.digest,
+                size |-> Ev.size, fetched |-> Ev.fetched, err |-> Ev.err]
+    /\ StatOK(last', dg, sz, fetched, ErrText(reported))
+    /\ NoBind
     /\ UNCHANGED core /\ UNCHANGED <<dg, sz>>
 
 TraceNext ==
     \/ TraceReset \/ TraceReaddir \/ TraceLookup \/ TraceForget \/ TraceGetattrChild \/ TraceGetattr
-    \/ TraceGetxattr \/ TraceListxattr \/ TraceProgress \/ TraceReport \/ TraceStatRead
+    \/ TraceGetxattr \/ TraceListxattr \/ TraceProgress \/ TraceReport \/ TraceStatLookup \/ TraceStatGetattr \/ TraceStatRead
 
 TraceSpec == TraceInit /\ [][TraceNext]_tvars
 
